@@ -64,6 +64,12 @@ func c18Check(c c18Case) fw.Outcome {
 	if o.Fail != "" {
 		return o
 	}
+	if c.Closed {
+		// the polygon-level accessor must report its exterior's flag
+		if p := geometry.NewPoly(adapt.Pts(c.Pts, c.Enc.Scale), nil, c.Enc.Opts()); p.Clockwise() != s.Clockwise() {
+			return fw.Failf(o.Label, "Poly.Clockwise() = %v but its exterior ring %v reports %v", p.Clockwise(), c.Pts, s.Clockwise())
+		}
+	}
 	moved := c
 	moved.Pts = make([]exact.P, len(c.Pts))
 	for i, p := range c.Pts {
